@@ -130,8 +130,11 @@ def _vi(v):
     return [Atom("vi"), v, DEFAULT_LINE, None]
 
 
-def _elab_key(c, ktname):
+def _elab_key(c, ktname, origin=None):
+    """ktname: the key type of the type the child is listed in; origin: the key type of the type that DECLARED it (fixed
+    names are converted once, where they are declared; the defaults of a wildcard key are re-keyed in every derived type)"""
     kt = _keytype_fn(ktname)
+    okt = _keytype_fn(origin or ktname)
     if c.name == "+":
         name = "+"
         attr = c.attr
@@ -143,7 +146,7 @@ def _elab_key(c, ktname):
         else:
             dflt = [Atom("keyed")] + [[kt(k), _vi(v.strip())] for k, v in (c.default or [])]
     else:
-        name = kt(c.name)
+        name = okt(c.name)
         attr = c.attr or _basic_key(name).replace("-", "_")
         if c.multi:
             dflt = [Atom("many")] + [_vi(v.strip()) for v in (c.default or [])]
@@ -168,13 +171,15 @@ def _elab_sect(c, ktname):
 
 
 def _elab_children(children, ktname):
+    """children: descriptions, or (description, key type of the declaring type) pairs for the children of a derived type"""
     out = []
     for c in children:
+        c, origin = c if isinstance(c, tuple) else (c, ktname)
         if c.kind == "key":
-            name, info = _elab_key(c, ktname)
+            name, info = _elab_key(c, ktname, origin)
             out.append([name, info])
         else:
-            key, info = _elab_sect(c, ktname)
+            key, info = _elab_sect(c, origin)
             out.append([key, info])
     return out
 
@@ -193,11 +198,11 @@ def elaborate(s):
             bk, bd, bchildren = resolved[_basic_key(t.extends)]
             kt = t.keytype or bk
             dt = t.datatype or bd
-            children = bchildren + list(t.children)
+            children = bchildren + [(c, kt) for c in t.children]
         else:
             kt = t.keytype or "basic-key"
             dt = t.datatype or "null"
-            children = list(t.children)
+            children = [(c, kt) for c in t.children]
         resolved[n] = (kt, dt, children)
         if t.implements:
             subs[_basic_key(t.implements)].append(n)
@@ -207,8 +212,9 @@ def elaborate(s):
             types.append([n, [Atom("abstract"), n, subs[n]]])
         else:
             kt, dt, children = resolved[n]
-            # inherited fixed names were normalised under the *base's* key type (known finding C11 when they differ);
-            # the generator keeps inherited fixed names fixed points of every key type in the chain
+            # inherited fixed names stay as the DECLARING type's key type converted them (info.deriveSectionType copies the
+            # children; known finding C11 when the key types differ).  The general family keeps inherited fixed names fixed
+            # points of every key type in the chain; cfggen.add_keytype_override adds types where they are not
             types.append([n, [Atom("concrete"), [Atom("stype"), n, kt, dt, _elab_children(children, kt)]]])
     kt = s.keytype or "basic-key"
     top = [Atom("stype"), None, kt, s.datatype or "null", _elab_children(s.children, kt)]
